@@ -1175,7 +1175,7 @@ func runC18(c *Ctx) {
 	if thorough {
 		c.SetBudget(30 * time.Minute)
 	} else {
-		c.SetBudget(150 * time.Second)
+		c.SetBudget(240 * time.Second)
 	}
 	c.Rule = "Leg spellings: every pattern of the listed families x every subset O of {i,m,s,n,x} (32) x base options {none, RightToLeft, RE2, ECMAScript} x every input up to the bound over {a,A,b,\\n} (second profile {é,É,日,\\n}) x every start offset: Compile(p,B+O), Compile(\"(?O)\"+p,B) and Compile(\"(?O:\"+p+\")\",B) agree on compiling at all, on GetGroupNames/GetGroupNumbers, and on match index/length and the capture list of every group; with x in O all three use the same blank-and-comment-decorated text. " +
 		"Leg toggles: patterns assembled from menus with nested option groups (?H1:X(?H2:Y)Z), in-group switches (X(?H1)Y(?H2)Z)W (also across '|', inside quantified groups, lookarounds and conditionals), ExplicitCapture switched between groups with back-references behind them, and x switched with blank/comment fillers, in all three spellings of every listed O: each must equal (a) the engine on the pushed-down form, in which every leaf carries its own (?on-off:leaf) group and groups that n switches off are (?: ), and (b) the reference matcher of spec.go run on that tree; where the numbering rule says a referenced group does not exist, all spellings must be rejected. " +
